@@ -20,6 +20,7 @@ From RU Require Import Proofs.C02_Stmt4 Proofs.C02_QHost Proofs.C02_SetHostNone 
 From RU Require Import Proofs.C02_JoinAbs Proofs.C02_JoinPath Proofs.C02_Segments Proofs.C02_SegmentsCanon Proofs.C02_Reach6.
 From RU Require Import Proofs.C02_Ovr Proofs.C02_Reach7.
 From RU Require Import Proofs.C02_File Proofs.C02_FileL1 Proofs.C02_FileCanon.
+From RU Require Import Proofs.C02_FileParse Proofs.C02_FileHost Proofs.C02_FileSet Proofs.C02_Reach8.
 Open Scope string_scope.
 Open Scope N_scope.
 Open Scope list_scope.
@@ -1572,6 +1573,108 @@ Example C02_file_path_loop_inhabited :
   /\ parse_path_loop true CUrlParser STFile 7 (9 :: B "x") (B "file:///c:") 8 [] false = POk (B "file:///c:/x", false, [])
   /\ parse_path_loop true CUrlParser STFile 7 (B "a/../C:/../b") (B "file:///") 8 [] false = POk (B "file:///C:/b", false, []).
 Proof. exact file_loop_drive_arms. Qed.
+
+(* ---------- Q. file records in histories: L1 for parse_file without a base, L2 for the query / fragment operations,
+   the reach theorem C02_reach_partial7 ---------- *)
+(* Q.1  the new host clause (a hypothesis the proof of L1 forces): the display of a parsed host is no Windows drive
+   letter - HostRT gives it for ':' (the authority scan stops there) but not for '|'; proved of the host model for
+   every IDNA function satisfying IdnaOK ('|' and ':' are forbidden domain code points) *)
+Theorem C02_host_no_wdl_model : forall idna, IdnaOK idna -> host_no_wdl (host_parse idna) host_display.
+Proof. exact host_no_wdl_model. Qed.
+Check C02_host_no_wdl_model : forall idna, IdnaOK idna ->
+  forall s h, host_parse idna s = Ok h -> is_wdl (host_display h) = false.
+Print Assumptions C02_host_no_wdl_model.
+
+(* Q.2  L1 for parse_file without a base: EVERY result of Url::parse (any encoding override) on an input with the file
+   scheme - all three entries: two slashes (file host state, "localhost", drive letter in host position), one slash,
+   no slash - that is outside Known_file_drive is a canonical file record *)
+Theorem C02_parse_file_Canon5 : forall dbg hp hpo hd, HostRT hp hpo hd -> host_above hp hpo hd ->
+  (forall s, hp s <> Ok (HDomain [])) -> host_no_wdl hp hd ->
+  forall ovr input sch rem u, usv_list input ->
+  parse_scheme CUrlParser (input_new_trim_c0 input) = Some (sch, rem) -> scheme_type_of sch = STFile ->
+  parse_url dbg hp hpo hd ovr None input = POk u ->
+  Known_file_drive u = false -> FileCanon hp hd u.
+Proof. exact parse_file_Canon5. Qed.
+Check C02_parse_file_Canon5 : forall dbg hp hpo hd, HostRT hp hpo hd -> host_above hp hpo hd ->
+  (forall s, hp s <> Ok (HDomain [])) -> host_no_wdl hp hd ->
+  forall ovr input sch rem u, usv_list input ->
+  parse_scheme CUrlParser (input_new_trim_c0 input) = Some (sch, rem) -> scheme_type_of sch = STFile ->
+  parse_url dbg hp hpo hd ovr None input = POk u ->
+  Known_file_drive u = false -> FileCanon hp hd u.
+Print Assumptions C02_parse_file_Canon5.
+
+(* every parse result without a base outside Known_file_drive - the whole constructor R4_parse - is of one of the
+   five canonical forms *)
+Theorem C02_parse_CanonF : forall dbg hp hpo hd, HostOK2 hp hpo hd -> host_nonempty hp hpo -> host_no_wdl hp hd ->
+  forall ovr input u, usv_list input -> parse_url dbg hp hpo hd ovr None input = POk u ->
+  Known_file_drive u = false -> CanonF hp hpo hd u.
+Proof. exact parse_CanonF. Qed.
+Check C02_parse_CanonF : forall dbg hp hpo hd, HostOK2 hp hpo hd -> host_nonempty hp hpo -> host_no_wdl hp hd ->
+  forall ovr input u, usv_list input -> parse_url dbg hp hpo hd ovr None input = POk u ->
+  Known_file_drive u = false -> Canon hp hpo hd u \/ FileCanon hp hd u.
+Print Assumptions C02_parse_CanonF.
+
+(* Q.3  L2 on canonical file records for the operations that replace query or fragment only *)
+Theorem C02_set_fragment_File : forall dbg hp hd u fr u', FileCanon hp hd u -> usv_opt fr ->
+  set_fragment dbg u fr = Some u' -> nlen (ser u') <= U32_MAX_P -> FileCanon hp hd u'.
+Proof. exact set_fragment_File. Qed.
+Print Assumptions C02_set_fragment_File.
+
+Theorem C02_set_query_File : forall dbg hp hd u qr u', FileCanon hp hd u -> usv_opt qr ->
+  set_query dbg u qr = Some u' -> nlen (ser u') <= U32_MAX_P -> FileCanon hp hd u'.
+Proof. exact set_query_File. Qed.
+Print Assumptions C02_set_query_File.
+
+Theorem C02_qpm_File : forall dbg hp hpo hd, HostRT hp hpo hd -> forall u ops u', FileCanon hp hd u -> Forall C15_Ser.op_ok ops ->
+  query_pairs_session dbg u ops = Some u' -> nlen (ser u') <= U32_MAX_P -> FileCanon hp hd u'.
+Proof. exact qpm_File. Qed.
+Print Assumptions C02_qpm_File.
+
+Theorem C02_join_tail_File : forall dbg hp hpo hd ovr b input u, FileCanon hp hd b -> usv_list input -> tail_ref input = true ->
+  parse_url dbg hp hpo hd ovr (Some b) input = POk u -> FileCanon hp hd u.
+Proof. exact join_tail_File. Qed.
+Print Assumptions C02_join_tail_File.
+
+(* Q.4  the reach theorem: every record of a ReachC7 history (C02_Reach8: every no-base parse result outside
+   Known_file_drive, file inputs included; on file records set_fragment / set_query / quirks search / quirks hash,
+   query_pairs_mut sessions, tail joins; everything of ReachC6 from the non-file records) is a fixpoint *)
+Theorem C02_reach_partial7 : forall dbg hp hpo hd, HostOK2 hp hpo hd -> host_nonempty hp hpo -> host_no_wdl hp hd -> forall u,
+  ReachC7 dbg hp hpo hd u ->
+  Fixpoint_of_reparse dbg hp hpo hd u /\ wf_b u = true /\ ascii (ser u).
+Proof. exact reach_partial7. Qed.
+Check C02_reach_partial7 : forall dbg hp hpo hd, HostOK2 hp hpo hd -> host_nonempty hp hpo -> host_no_wdl hp hd -> forall u,
+  ReachC7 dbg hp hpo hd u ->
+  parse_url dbg hp hpo hd None None (utf8_lossy (ser u)) = POk u /\ wf_b u = true /\ ascii (ser u).
+Print Assumptions C02_reach_partial7.
+
+Theorem C02_reach_partial7_in_statement : forall dbg hp hpo hd, HostOK2 hp hpo hd -> host_nonempty hp hpo -> host_no_wdl hp hd ->
+  forall u, ReachC7 dbg hp hpo hd u -> Reachable4 dbg hp hpo hd u.
+Proof. exact ReachC7_Reachable4. Qed.
+Print Assumptions C02_reach_partial7_in_statement.
+
+Theorem C02_reach_partial7_extends : forall dbg hp hpo hd, HostOK2 hp hpo hd -> host_nonempty hp hpo ->
+  forall u, ReachC6 dbg hp hpo hd u -> ReachC7 dbg hp hpo hd u.
+Proof. exact ReachC6_C7. Qed.
+Print Assumptions C02_reach_partial7_extends.
+
+Theorem C02_reach_partial7_model : forall dbg idna, IdnaOK idna -> forall u,
+  ReachC7 dbg (host_parse idna) host_parse_opaque host_display u ->
+  Fixpoint_of_reparse dbg (host_parse idna) host_parse_opaque host_display u /\ wf_b u = true /\ ascii (ser u).
+Proof. exact reach_partial7_model. Qed.
+Print Assumptions C02_reach_partial7_model.
+
+(* the hypotheses are met: the three entries of parse_file, setters and tail joins on file records, on the host model *)
+Example C02_reach_partial7_inhabited :
+  m_ok (m_parse "file://h.x/a/../b c?q#f") "file://h.x/b%20c?q#f" = true
+  /\ m_ok (m_parse "file://localhost/x\y") "file:///x/y" = true
+  /\ m_ok (m_parse "file:////x") "file:///x" = true
+  /\ m_ok (m_parse "file:/x/./y") "file:///x/y" = true
+  /\ m_ok (m_parse "file:x") "file:///x" = true
+  /\ m_ok (m_hist "file:///a/b" [OSetFragment (Some (B "z")); OSetQuery (Some (B "k v")); OQHash (B "#w")]) "file:///a/b?k%20v#w" = true
+  /\ m_ok (m_join "file://h.x/a/b?q#f" "?k") "file://h.x/a/b?k" = true
+  /\ m_ok (m_join "file://h.x/a/b?q#f" "#g") "file://h.x/a/b?q#g" = true
+  /\ tail_ref (B "?k") && file_tail_op (OQHash (B "#w")) && file_input (B "file:x") = true.
+Proof. exact reach7_example. Qed.
 
 (* ---------- F. every excluded class contains a history that is not a fixpoint ---------- *)
 Theorem C02_F_C03_5_refuted :
